@@ -58,12 +58,12 @@ static void cc_imm_reg (int index, int imm, int dest)
 #endif
 
 #ifdef SK_GHOST
-/* C10 skeleton contract (contracts/skeleton.c): an event clock, and for every label where it is placed and where the
- * first branch to it is emitted */
+/* C10 skeleton contract (contracts/skeleton.c): for every label, the phase in which it is placed and the phase in which
+ * the first branch to it is emitted */
 #include "contracts/skeleton.h"
-int g_t, g_label_pos[SK_LABELS], g_first_branch[SK_LABELS];
-static void sk_label (int label) { if (label >= 0 && label < SK_LABELS) g_label_pos[label] = g_t; g_t++; }
-static void sk_branch (int label) { if (label >= 0 && label < SK_LABELS && g_first_branch[label] < 0) g_first_branch[label] = g_t; g_t++; }
+int g_phase, g_label_phase[SK_LABELS], g_branch_phase[SK_LABELS];
+static void sk_label (int label) { if (label >= 0 && label < SK_LABELS) g_label_phase[label] = g_phase; }
+static void sk_branch (int label) { if (label >= 0 && label < SK_LABELS && g_branch_phase[label] < 0) g_branch_phase[label] = g_phase; }
 #else
 #define sk_label(label) ((void)0)
 #define sk_branch(label) ((void)0)
